@@ -38,12 +38,12 @@ type Engine struct {
 	RecordUnsat     bool // keep the text of discharged (unsat) obligations for a cross-solver re-check
 	LoadSeconds     float64
 
-	intrinsics map[string]intrinsic
-	prefixIntr []prefixIntrinsic
-	intrCache  sync.Map // *ssa.Function -> intrinsic (or nil marker)
-	natives    map[string]interface{}
-	typeCache  sync.Map
-	fnInfos    sync.Map
+	intrinsics  map[string]intrinsic
+	prefixIntr  []prefixIntrinsic
+	intrCache   sync.Map // *ssa.Function -> intrinsic (or nil marker)
+	natives     map[string]interface{}
+	typeCache   sync.Map
+	fnInfos     sync.Map
 	ifaceChecks sync.Map
 	methodCache sync.Map
 }
@@ -152,31 +152,31 @@ const (
 )
 
 type Result struct {
-	Harness     string
-	Paths       int
-	Completed   int
-	Pruned      int
-	Unsupported map[string]int // reason -> paths
+	Harness       string
+	Paths         int
+	Completed     int
+	Pruned        int
+	Unsupported   map[string]int   // reason -> paths
 	UnsupportedAt map[string][]int // reason -> decision prefix of one such path
-	Budget      int
-	Panics      map[string]int
-	Violations  []Violation
-	Obligations int
-	Discharged  int
-	Unknowns    int
-	Reached     map[string]int
-	Notes       map[string]int
-	Funcs       map[string]int
-	Solver      SolverStats
-	Steps       int64
-	InitSteps   int64
-	WallSeconds float64
-	Samples     []PathSample
-	Witnesses   []PathWitness
-	Exhausted   bool // false if MaxPaths hit
-	MaxDepth    int
-	Nontrivial  int // paths that discharged at least one obligation or reached a label
-	UnsatQueries map[string]struct{} `json:"-"` // distinct discharged obligations (SMT-LIB text), capped
+	Budget        int
+	Panics        map[string]int
+	Violations    []Violation
+	Obligations   int
+	Discharged    int
+	Unknowns      int
+	Reached       map[string]int
+	Notes         map[string]int
+	Funcs         map[string]int
+	Solver        SolverStats
+	Steps         int64
+	InitSteps     int64
+	WallSeconds   float64
+	Samples       []PathSample
+	Witnesses     []PathWitness
+	Exhausted     bool // false if MaxPaths hit
+	MaxDepth      int
+	Nontrivial    int                 // paths that discharged at least one obligation or reached a label
+	UnsatQueries  map[string]struct{} `json:"-"` // distinct discharged obligations (SMT-LIB text), capped
 }
 
 type PathSample struct {
@@ -473,7 +473,6 @@ func WriteJSON(path string, v interface{}) error {
 	}
 	return os.WriteFile(path, b, 0o644)
 }
-
 
 // ConcreteRun is the outcome of one concrete (random-input) execution of a harness in the engine.
 type ConcreteRun struct {
